@@ -14,9 +14,11 @@ import (
 
 	"servitor/client"
 	"servitor/pub"
+	"servitor/verifchk/wk"
 	"servitor/verifkit/ev"
 	"servitor/verifkit/gen"
 	"servitor/verifkit/sim"
+	"servitor/verifkit/world"
 )
 
 const apAccept = `application/activity+json,application/ld+json; profile="https://www.w3.org/ns/activitystreams"`
@@ -369,4 +371,66 @@ func TestVerifC04(t *testing.T) {
 		}
 	}
 	_ = gen.DontCare
+	/* ---------- (3) every request issued while browsing generated worlds ---------- */
+	nWorlds := c.Share(c.Pick(24, 400))
+	base := total + 10
+	for i := 0; i < nWorlds; i++ {
+		n := base + i
+		if c.Past(n) || c.Stop() {
+			break
+		}
+		r := c.Rand(n, 0)
+		o := world.DefaultOpts(r)
+		o.MaxOutbox, o.MaxReplies, o.MaxAncestors = 10, 8, 3
+		g := world.Generate(r, []string{s.Host(2 + r.Intn(3)), s.Host(5 + r.Intn(3)), s.AltHost(8)}, o)
+		// hostile references inside content: they must not be able to shape a request either
+		for _, p := range g.Posts {
+			if r.Intn(4) == 0 {
+				p.Extra = map[string]any{"inReplyTo": "https://" + g.Hosts[0] + "/x/" + hostilePathBits[r.Intn(len(hostilePathBits))] + "?" + hostileQueryBits[r.Intn(len(hostileQueryBits))]}
+			}
+		}
+		world.AddAttacks(g, r, []string{s.Host(9)})
+		g.Materialize()
+		s.SetHandler(wk.Handler(g.World))
+		if !c.Begin(n, fmt.Sprintf("browsing world %d", i)) {
+			continue
+		}
+		mark := s.LogLen()
+		d := map[string]any{"kind": "browse", "world": i}
+		c.Guard("request:", d, func() {
+			for _, e := range g.Entries {
+				item := pub.New(e.ID, nil)
+				if t, ok := item.(pub.Tangible); ok {
+					t.Parents(4)
+					kids, _ := wk.HarvestAll(t.Children(), []int{3, 4}, 12)
+					for _, k := range kids {
+						k.Parents(1)
+						if k.Children() != nil {
+							k.Children().Harvest(2, 0)
+						}
+					}
+				}
+			}
+			for _, a := range g.Actors {
+				if a.Handle != "" {
+					pub.FetchUserInput("@" + a.Handle + "@" + a.Host)
+				}
+			}
+		})
+		s.WaitIdle(2e9)
+		for _, rq := range s.LogSince(mark) {
+			sig, detail, sp := checkRequest(rq, nil)
+			if sp {
+				c.Count("raw_sp_in_target", 1)
+			}
+			if sig != "" {
+				c.Violation("request:"+sig, detail+"\n(while browsing a generated world)", d)
+			}
+			if rq.TLS {
+				c.Count("requests_parsed", 1)
+				c.Count("requests_while_browsing", 1)
+			}
+		}
+		c.Nontrivial(fmt.Sprintf("browse:%d:%d", c.R.Shard, n))
+	}
 }
